@@ -72,7 +72,7 @@ func VerifC15_new() {
 	vAssert(e.H >= 1, "New accepts only a non-zero HandlersQuantity")
 	vAssert(len(d.priorities) == n, "every configured priority is listed once")
 	for i := range d.priorities {
-		vAssert(d.priorities[i] == e.ps[i], "C05: priorities are sorted from highest to lowest before every division")
+		vAssert(d.priorities[i] == e.ps[i], "C05/C15: priorities are sorted from highest to lowest before every division")
 	}
 	var st []uint
 	for _, p := range e.ps {
